@@ -49,20 +49,24 @@ type SetInfo struct {
 var Sets = []SetInfo{{"bgv", 5, false, true, true}, {"ckks", 5, true, false, false}, {"ckks-ci", 5, true, false, false}, {"ckks-full", 5, true, false, true}}
 
 type sctx struct {
-	name  string
-	bp    bgv.Parameters
-	cp    ckks.Parameters
-	rp    rlwe.Parameters
-	sk    *rlwe.SecretKey
-	becd  *bgv.Encoder
-	cecd  *ckks.Encoder
-	enc   *rlwe.Encryptor
-	dec   *rlwe.Decryptor
-	beval *bgv.Evaluator
-	ceval *ckks.Evaluator
-	T     uint64
-	n     int
-	logd  ring.Dimensions
+	name            string
+	bp              bgv.Parameters
+	cp              ckks.Parameters
+	rp              rlwe.Parameters
+	sk              *rlwe.SecretKey
+	becd            *bgv.Encoder
+	cecd            *ckks.Encoder
+	enc             *rlwe.Encryptor
+	dec             *rlwe.Decryptor
+	beval           *bgv.Evaluator
+	ceval           *ckks.Evaluator
+	T               uint64
+	n               int
+	logd            ring.Dimensions
+	bpe             *bgvpoly.Evaluator
+	bpes            map[bool]*bgvpoly.Evaluator
+	cpe             *ckkspoly.Evaluator
+	calls, vecCalls int
 }
 
 var ctxs = map[string]*sctx{}
@@ -178,11 +182,23 @@ func (c *sctx) poly(cf cfg, v []int64) bignum.Polynomial {
 		}
 		p = bignum.NewPolynomial(basis, u, interval)
 	} else {
-		f := make([]float64, len(v))
-		for i := range v {
-			f[i] = float64(v[i])
+		c.calls++
+		if c.calls%2 == 0 {
+			// the sparse form: absent coefficients are nil
+			cc := make([]*bignum.Complex, len(v))
+			for i := range v {
+				if v[i] != 0 || i == len(v)-1 {
+					cc[i] = &bignum.Complex{new(big.Float).SetInt64(v[i]), new(big.Float)}
+				}
+			}
+			p = bignum.NewPolynomial(basis, cc, interval)
+		} else {
+			f := make([]float64, len(v))
+			for i := range v {
+				f[i] = float64(v[i])
+			}
+			p = bignum.NewPolynomial(basis, f, interval)
 		}
-		p = bignum.NewPolynomial(basis, f, interval)
 	}
 	switch cf.Parity {
 	case "odd":
@@ -255,8 +271,15 @@ func (c *sctx) run(cf cfg, rng *rand.Rand) ev {
 				bp[i] = c.poly(cf, v)
 			}
 			m := map[int][]int{}
+			c.vecCalls++
 			for s := 0; s < n; s++ {
-				which := s % 3 // 0 -> poly 0, 1 -> poly 1, 2 -> none
+				which := s % 3         // 0 -> poly 0, 1 -> poly 1, 2 -> none
+				if c.vecCalls%2 == 0 { // every other vector: only the first quarter of the slots is covered
+					which = 2
+					if s < n/4 {
+						which = s % 2
+					}
+				}
 				if which < npoly {
 					m[which] = append(m[which], s)
 					mapping[s] = which + 1
@@ -288,14 +311,24 @@ func (c *sctx) run(cf cfg, rng *rand.Rand) ev {
 	e["x"], e["polys"], e["map"] = x, polys, mapping
 	if err0 != nil || pan0 {
 		e["err"], e["panic"], e["msg"], e["out"], e["lvlout"], e["scdiff"], e["inok"] = true, pan0, "setup: "+msg0, x, -1, 0, false
+		e["polyok"], e["again"] = true, true
 		return e
 	}
+	pd0 := polyDigest(p)
 	var res *rlwe.Ciphertext
 	err, pan, msg := guarded(func() error {
 		var err error
 		if c.T > 0 {
 			c.beval.ScaleInvariant = cf.Invariant
-			pe := bgvpoly.NewEvaluator(c.bp, c.beval)
+			// one persistent polynomial evaluator per mode (the mode is read when the evaluator is built)
+			if c.bpes == nil {
+				c.bpes = map[bool]*bgvpoly.Evaluator{}
+			}
+			if c.bpes[cf.Invariant] == nil {
+				c.bpes[cf.Invariant] = bgvpoly.NewEvaluator(c.bp, c.beval)
+			}
+			c.bpe = c.bpes[cf.Invariant]
+			pe := c.bpe
 			if cf.Mode == "pbasis" {
 				pb := compoly.NewPowerBasis(ct, bignum.Monomial)
 				if cf.Deg >= 2 { // some powers are already there
@@ -309,7 +342,10 @@ func (c *sctx) run(cf cfg, rng *rand.Rand) ev {
 			}
 			return err
 		}
-		pe := ckkspoly.NewEvaluator(c.cp, c.ceval)
+		if c.cpe == nil {
+			c.cpe = ckkspoly.NewEvaluator(c.cp, c.ceval)
+		}
+		pe := c.cpe
 		if cf.Mode == "pbasis" {
 			basis := bignum.Monomial
 			if cf.Basis == "cheb" {
@@ -327,11 +363,32 @@ func (c *sctx) run(cf cfg, rng *rand.Rand) ev {
 		}
 		return err
 	})
+	after, _ := ct.MarshalBinary()
+	e["inok"] = string(before) == string(after)
+	// frame condition on the polynomial argument, and insensitivity to history: the same call again
+	e["polyok"] = polyDigest(p) == pd0
+	e["again"] = true
+	if err == nil && !pan && res != nil && cf.Mode != "pbasis" {
+		var res2 *rlwe.Ciphertext
+		err2, pan2, _ := guarded(func() (err error) {
+			if c.T > 0 {
+				res2, err = c.bpe.Evaluate(ct, p, target)
+			} else {
+				res2, err = c.cpe.Evaluate(ct, p, target)
+			}
+			return
+		})
+		if err2 != nil || pan2 || res2 == nil {
+			e["again"] = false
+		} else {
+			b1, _ := res.MarshalBinary()
+			b2, _ := res2.MarshalBinary()
+			e["again"] = string(b1) == string(b2)
+		}
+	}
 	if c.T > 0 {
 		c.beval.ScaleInvariant = false
 	}
-	after, _ := ct.MarshalBinary()
-	e["inok"] = string(before) == string(after)
 	e["err"], e["panic"], e["msg"] = err != nil, pan, msg
 	out := make([]int64, n)
 	e["lvlout"], e["scdiff"] = -1, 0
@@ -370,6 +427,40 @@ func (c *sctx) run(cf cfg, rng *rand.Rand) ev {
 	}
 	e["out"] = out
 	return e
+}
+
+// polyDigest renders the polynomial argument (coefficients incl. absent ones, flags, mapping).
+func polyDigest(p interface{}) string {
+	var ps []bignum.Polynomial
+	var mp map[int][]int
+	switch x := p.(type) {
+	case bignum.Polynomial:
+		ps = []bignum.Polynomial{x}
+	case bgvpoly.PolynomialVector:
+		for _, v := range x.Value {
+			ps = append(ps, v.Polynomial)
+		}
+		mp = x.Mapping
+	case ckkspoly.PolynomialVector:
+		for _, v := range x.Value {
+			ps = append(ps, v.Polynomial)
+		}
+		mp = x.Mapping
+	default:
+		return fmt.Sprintf("%T", p)
+	}
+	out := fmt.Sprint(mp)
+	for _, q := range ps {
+		out += fmt.Sprintf("|%v %v %v %v %v:", q.Basis, q.IsOdd, q.IsEven, q.A.String(), q.B.String())
+		for _, c := range q.Coeffs {
+			if c == nil {
+				out += "nil,"
+			} else {
+				out += c[0].Text('g', 20) + "+" + c[1].Text('g', 20) + "i,"
+			}
+		}
+	}
+	return out
 }
 
 // documented change of basis for a Chebyshev interval
